@@ -9,11 +9,19 @@
 //!                                             real constant `FONTS[fid]` (ties the translated table)
 //!   font.glyph  <fontspec> <cps> <atlas>   -> per cp `idx:ax,ay,aw,ah:bits`
 //!        idx  = `font.glyph_mapping.index(cp)` (real)
-//!        area = cell of that index: `(idx % gpr * cw, idx / gpr * ch, cw, ch)`, `gpr = imgW / cw`
-//!               (`MonoFont::glyph` is `pub(crate)`; the area is the oracle's computation and the oracle
-//!               checks that what the real code draws is exactly `font.image.pixel()` over that area)
+//!        area = NOT a value of the real code: `MonoFont::glyph` is `pub(crate)` and the sub-image it
+//!               returns is never handed to the target, so the atlas position of the glyph cannot be
+//!               observed through any public path. The token is the harness's own `cell_of`:
+//!               `(idx % gpr * cw, idx / gpr * ch, cw, ch)`, `gpr = imgW / cw`; comparing it with the model's
+//!               `glyphArea` ties the model to the ORACLE's reading of the property, not to the code.
+//!               The real code is tied through `bits` (below) and through `font.draw`: what it draws must
+//!               be exactly `font.image.pixel()` over that area (custom atlases are random bits, so a wrong
+//!               cell shows), and the part of the area that IS observable, its size, is taken from the real
+//!               `fill_contiguous` call whenever the glyph is drawn (the printed `aw,ah`; the oracle demands
+//!               area = `(0,0) cw x ch` with exactly `cw*ch` colours); only `ax,ay` are the harness's.
 //!        bits = what drawing the single character with text+background colour hands to the target's
-//!               `fill_contiguous` (first w*h colours), `-` if nothing is drawn
+//!               `fill_contiguous` (real; all colours of the call, which must be exactly w*h), `-` if
+//!               nothing is drawn
 //!   font.draw   <fontspec> <via> <bl> <tc> <bg> <ul> <st> <x> <y> <cps> <atlas>
 //!                                          -> next=<x,y> r1=<pixel map> r2=same|<pixel map>
 //!        via: `s` = `TextRenderer::draw_string`, `t` = `Text::with_baseline(..).draw()`,
@@ -32,11 +40,16 @@
 //!   `line_elements_pos`, `decorations_cover`):
 //!   * index(c) = position of c in `chars()` if mapped, else the replacement index; mapped characters of a
 //!     built-in mapping have pairwise different indices; every cell of a built-in font (all mapped indices
-//!     and the replacement) lies inside the font image, glyph count <= glyphs_per_row * rows;
+//!     and the replacement) lies inside the font image, glyph count <= glyphs_per_row * rows (the text asks
+//!     for no more; that the counts are EQUAL today is the Lean table fact `FontOK`);
 //!   * the pixel map of a drawn string is exactly: for the i-th character the designated cell (read with
 //!     `font.image.pixel()`) at x + i*(cw+sp): on -> text colour, off -> background colour, spacing columns ->
 //!     background colour, absent colours leave pixels untouched; then strikethrough and underline
-//!     rectangles over the full text width at the font's offsets; nothing else is touched.
+//!     rectangles over the full text width at the font's offsets; nothing else is touched. Where a drawn
+//!     underline and a drawn strikethrough of different colours overlap (custom fonts only) the property
+//!     text does not say which one shows: the oracle accepts either colour there; that the code paints the
+//!     underline over the strikethrough is the model's statement (`drawDecorations`, `strikethrough_covers`
+//!     has the "not under the underline" hypothesis) and is held by the correspondence.
 use crate::common::*;
 use embedded_graphics::{
     image::{GetPixel, ImageRaw},
@@ -271,25 +284,37 @@ fn fill_rect(m: &mut PMap, x: i64, y: i64, w: i64, h: i64, c: u32) {
     }
 }
 
+/// Fonts whose glyphs and strings are drawn. Thorough: all. Quick: a selection that depends on the seed and
+/// contains every size/weight constant name (`FONT_4X6` .. `FONT_10X20`, 22 of them) and every character set
+/// module (14) at least once: the i-th name is taken from the character set number `(i + rot) mod 14`, `rot`
+/// drawn from the seed (the next character set that has the name when that one lacks it: `jis_x0201` has only
+/// 6 sizes), then one font of every character set still missing, then seeded random fonts up to 24.
 fn quick_fonts(tier: Tier, rng: &mut Rng) -> Vec<usize> {
     if tier == Tier::Thorough {
         return (0..FONTS.len()).collect();
     }
-    // 24 fonts: one per charset (size position rotating) plus the three fonts whose underline lies below the
-    // character cell and seeded random ones
-    let mut v: Vec<usize> = Vec::new();
-    let mut start = 0;
-    let mut k = 0;
-    while start < FONTS.len() {
-        let m = FONTS[start].0;
-        let cnt = FONTS[start..].iter().take_while(|f| f.0 == m).count();
-        v.push(start + (k * 5) % cnt);
-        k += 1;
-        start += cnt;
+    let mut mods: Vec<&str> = Vec::new();
+    let mut names: Vec<&str> = Vec::new();
+    for f in FONTS.iter() {
+        if !mods.contains(&f.0) {
+            mods.push(f.0);
+        }
+        if !names.contains(&f.1) {
+            names.push(f.1);
+        }
     }
-    for name in ["FONT_10X20", "FONT_9X15", "FONT_9X18_BOLD", "FONT_4X6"] {
-        let cands: Vec<usize> = (0..FONTS.len()).filter(|i| FONTS[*i].1 == name).collect();
-        v.push(*rng.pick(&cands));
+    let find = |m: &str, n: &str| (0..FONTS.len()).find(|i| FONTS[*i].0 == m && FONTS[*i].1 == n);
+    let rot = rng.below((mods.len() * names.len()) as u64) as usize;
+    let mut v: Vec<usize> = Vec::new();
+    for (i, n) in names.iter().enumerate() {
+        let hit = (0..mods.len()).find_map(|d| find(mods[(i + rot + d) % mods.len()], n));
+        v.push(hit.expect("every font name occurs in some module"));
+    }
+    for (j, m) in mods.iter().enumerate() {
+        if !v.iter().any(|i| FONTS[*i].0 == *m) {
+            let own: Vec<usize> = (0..FONTS.len()).filter(|i| FONTS[*i].0 == *m).collect();
+            v.push(own[(rot + j) % own.len()]);
+        }
     }
     while v.len() < 24 {
         let i = rng.below(FONTS.len() as u64) as usize;
@@ -301,6 +326,28 @@ fn quick_fonts(tier: Tier, rng: &mut Rng) -> Vec<usize> {
     v.dedup();
     v
 }
+
+/// Custom fonts whose underline and strikethrough rectangles share rows (no built-in font has that, and the
+/// fonts of `custom_fonts` put the underline below the cell): (ulOff, ulH, stOff, stH) = partial overlap with
+/// rows of either decoration alone / strikethrough inside the underline / underline inside a strikethrough
+/// that is higher than the cell / identical rectangles (spacing 0). Drawn with DIFFERENT decoration colours
+/// these are the only ops on which the order of the two `if let` blocks of `draw_decorations` shows.
+fn overlap_fonts(rng: &mut Rng) -> Vec<(String, String, Vec<u32>)> {
+    let mut out = Vec::new();
+    let data = vec![0u32, 0x61, 0x6e];
+    for (cw, ch, sp, gpr, uo, uh, so, sh) in
+        [(5u32, 7u32, 1u32, 7u32, 2u32, 3u32, 3u32, 3u32), (4, 6, 2, 16, 1, 4, 2, 1), (3, 7, 3, 1, 6, 3, 0, 8), (6, 8, 0, 5, 3, 2, 3, 2)]
+    {
+        let iw = gpr * cw + 1;
+        let ih = ((14 + gpr - 1) / gpr) * ch;
+        let bits: Vec<bool> = (0..iw * ih).map(|_| rng.chance(1, 2)).collect();
+        let spec = format!("c:{}:{}:{}:{}:{}:{}:{}:{}:{}:{}:{}:{}", iw, ih, cw, ch, sp, ch - 2, uo, uh, so, sh, 3, fmt_list(data.iter()));
+        out.push((spec, hex_of(&bits), vec![0x61, 0x62, 0x6e, 0x7a, 0x63]));
+    }
+    out
+}
+/// (underline, strikethrough) pairs that differ in colour when both are drawn
+const OVERLAP_DECOS: [(&str, &str); 4] = [("1365", "t"), ("t", "1365"), ("1365", "2047"), ("2047", "1365")];
 
 /// custom fonts: (fontspec, atlas hex, characters worth drawing)
 fn custom_fonts(rng: &mut Rng) -> Vec<(String, String, Vec<u32>)> {
@@ -355,13 +402,19 @@ impl Module for M {
     fn rule(&self) -> &'static str {
         "ops: every mapped character of all 14 built-in mappings + 12 unmapped probes (NUL, control, C1, surrogate \
          neighbours, U+FFFD, non-BMP) through `index`; hand-written and seeded random mapping strings (ranges, \
-         incomplete/reversed ranges, duplicates, surrogate gap); constants of all 292 fonts; per selected font \
-         (quick: 24 incl. one per charset; thorough: all 292) every mapped character + the unmapped probes as \
-         single glyphs and as drawn strings of 16 characters x 4 colour options (text / background / both / \
-         none) x underline, strikethrough in {None, TextColor, Custom} x 4 baselines x draw_string / Text::draw, \
-         positions in +-40; custom fonts with spacing 1..=3 over synthetic atlases of 1, 7 and 16 glyphs per row \
-         (image width not a multiple of the character width) plus degenerate fonts. A draw/glyph op is \
-         non-trivial when at least one pixel is written; distinct = distinct op text."
+         incomplete/reversed ranges, duplicates, surrogate gap); constants, own-index and cell-inside facts of all 292 fonts \
+         (`font.info`, every tier). DRAWN (`font.glyph`, `font.draw`) are the selected fonts only: thorough = all \
+         292; quick = 24 of the 292, chosen from the seed so that each of the 22 size/weight names (FONT_4X6 .. \
+         FONT_10X20, incl. bold / italic) and each of the 14 character sets occurs at least once (name i from \
+         character set (i + rot) mod 14, rot from the seed), the rest seeded random; 268 fonts are NOT drawn in a \
+         quick run. Per selected font: every mapped character + the unmapped probes as single glyphs and as \
+         drawn strings of 16 characters x 4 colour options (text / background / both / none) x underline, \
+         strikethrough in {None, TextColor, Custom} x 4 baselines x draw_string / Text::draw, positions in +-40; \
+         custom fonts with spacing 1..=3 over synthetic atlases of 1, 7 and 16 glyphs per row (image width not a \
+         multiple of the character width), degenerate fonts, and 4 custom fonts whose underline and \
+         strikethrough rows overlap, drawn with decorations of two different colours (the only ops that show \
+         the order of the two decorations). A draw/glyph op is non-trivial when at least one pixel is written; \
+         distinct = distinct op text."
     }
 
     fn generate(&self, pid: &str, tier: Tier, rng: &mut Rng, emit: &mut dyn FnMut(String)) {
@@ -463,6 +516,23 @@ impl Module for M {
                 }
             }
             emit(format!("font.draw {} w{} {} 9 31 t 5 {} 4 - {}", spec, rng.below(20), rng.below(4), rng.range(-9, 9), hex));
+        }
+        // ---- custom fonts with overlapping underline / strikethrough rows, decorations of different colours ---
+        for (spec, hex, chars) in overlap_fonts(rng) {
+            emit(format!("font.glyph {} {} {}", spec, fmt_list(chars.iter()), hex));
+            for (tc, bg) in COLOUR_OPTS {
+                for (ul, st) in OVERLAP_DECOS {
+                    combo += 1;
+                    let via = if combo % 3 == 1 { "t" } else { "s" };
+                    let n = 1 + (combo % chars.len());
+                    emit(format!(
+                        "font.draw {} {} {} {} {} {} {} {} {} {} {}",
+                        spec, via, rng.below(4), tc, bg, ul, st, rng.range(-40, 40), rng.range(-40, 40), fmt_list(chars[..n].iter()), hex
+                    ));
+                }
+            }
+            emit(format!("font.draw {} w{} {} 9 31 1365 2047 {} 4 - {}", spec, 1 + rng.below(20), rng.below(4), rng.range(-9, 9), hex));
+            emit(format!("font.draw {} w{} {} - - 2047 1365 {} 4 - {}", spec, 1 + rng.below(20), rng.below(4), rng.range(-9, 9), hex));
         }
     }
 
@@ -573,15 +643,18 @@ impl Module for M {
                         let s: String = c.to_string();
                         style.draw_string(&s, Point::zero(), Baseline::Top, &mut r2).expect("no fault");
                         let n = (cell.2 * cell.3) as usize;
+                        // the observable part of the glyph area: the size of the real fill_contiguous call
+                        let mut real_size = (cell.2, cell.3);
                         let drawn: Option<Vec<bool>> = match r2.rec.log.as_slice() {
                             [] => None,
                             [Call::FillContiguous(a, cs)] => {
+                                real_size = (a.size.width, a.size.height);
                                 ctx.expect(
-                                    *a == embedded_graphics::primitives::Rectangle::new(Point::zero(), Size::new(cell.2, cell.3)) && cs.len() >= n,
+                                    *a == embedded_graphics::primitives::Rectangle::new(Point::zero(), Size::new(cell.2, cell.3)) && cs.len() == n,
                                     "C14:glyph-drawn-into-wrong-area",
                                     || format!("U+{:04X}: area {} with {} colours", cp, fmt_rect(a), cs.len()),
                                 );
-                                Some(cs.iter().take(n).map(|v| *v == 1).collect())
+                                Some(cs.iter().map(|v| *v == 1).collect())
                             }
                             other => {
                                 ctx.fail("C14:glyph-drawn-by-unexpected-calls", format!("U+{:04X}: {} calls", cp, other.len()));
@@ -608,7 +681,7 @@ impl Module for M {
                             Some(v) => v.iter().map(|b| if *b { '1' } else { '0' }).collect::<String>(),
                             None => "-".to_string(),
                         };
-                        items.push(format!("{}:{},{},{},{}:{}", idx, cell.0, cell.1, cell.2, cell.3, bits));
+                        items.push(format!("{}:{},{},{},{}:{}", idx, cell.0, cell.1, real_size.0, real_size.1, bits));
                     }
                     if items.is_empty() {
                         "-".to_string()
@@ -711,20 +784,39 @@ impl Module for M {
                     };
                     let base = want;
                     let mut wants: Vec<PMap> = Vec::new();
+                    // Both decorations drawn, in different colours, over common rows: the property text ("cover the
+                    // full text width at the font's decoration offsets") does not say which colour the common rows
+                    // get, so either is accepted here (wants[0] = the documented order, underline last).
+                    let (so, sh) = (font.strikethrough.offset as i64, font.strikethrough.height as i64);
+                    let (uo, uh) = (font.underline.offset as i64, font.underline.height as i64);
+                    let overlap = match (eff(st), eff(ul)) {
+                        (Some(a), Some(b)) => a != b && so.max(uo) < (so + sh).min(uo + uh),
+                        _ => false,
+                    };
                     for deco_width in deco_widths {
                         let mut want = base.clone();
                         if deco_width > 0 {
                             if let Some(c) = eff(st) {
-                                fill_rect(&mut want, x0, y0 + font.strikethrough.offset as i64, deco_width, font.strikethrough.height as i64, c);
+                                fill_rect(&mut want, x0, y0 + so, deco_width, sh, c);
                                 if wants.is_empty() {
                                     ctx.count("draw:strikethrough-drawn");
                                 }
                             }
                             if let Some(c) = eff(ul) {
-                                fill_rect(&mut want, x0, y0 + font.underline.offset as i64, deco_width, font.underline.height as i64, c);
+                                fill_rect(&mut want, x0, y0 + uo, deco_width, uh, c);
                                 if wants.is_empty() {
                                     ctx.count("draw:underline-drawn");
                                 }
+                            }
+                            if overlap {
+                                if wants.is_empty() {
+                                    ctx.count("draw:decorations-overlap-in-different-colours");
+                                }
+                                let mut alt = want.clone();
+                                fill_rect(&mut alt, x0, y0 + so, deco_width, sh, eff(st).unwrap());
+                                wants.push(want);
+                                wants.push(alt);
+                                continue;
                             }
                         }
                         wants.push(want);
